@@ -2,6 +2,7 @@
 //! (the fast path only compares records with what TLC printed).
 mod cfg;
 mod exec;
+mod joinrun;
 mod lts;
 mod names;
 mod obs;
@@ -51,12 +52,19 @@ fn main() {
                 len: get("len", "40").parse().unwrap(),
                 light: a.contains_key("light"),
                 split: a.contains_key("split"),
+                lower_only: a.contains_key("lower-only"),
                 max_events: get("max-events", "100000000").parse().unwrap(),
             });
             let r = lts::run_walk(lts.clone(), o);
             let mut r = r;
             r["lts_states"] = json!(lts.states.len());
             r["lts_edges"] = json!(lts.nedges);
+            println!("{}", r);
+            0
+        }
+        "join" => {
+            let r = joinrun::run(&get("cases", ""), &get("out", "work/join"), get("seed", "1").parse().unwrap(),
+                                 get("random", "2000").parse().unwrap(), get("chains", "2000").parse().unwrap());
             println!("{}", r);
             0
         }
